@@ -8,10 +8,13 @@ OPEN = [
     ("C05", "R-TEXTKEEP", "parser.(*Parser).parseComponentStmt|text token stepped onto (#1 in this function) is not lost",
      "whitespace-only text between a @component(...) use without slots and a following {{ }} block or directive is dropped: `<main>@component(\"~card\") \\n{{ 1 }}</main>` renders `...</div>1</main>` instead of `...</div> \\n1</main>`; parseComponentStmt steps onto the whitespace token to look for a @slot behind it and returns standing on it when there is none, and the caller steps over the last token of every statement. Keeping it needs a second token of lookahead (or carrying the text in the statement): not a small repair",
      "NewTemplate with components/card.tw = `<div>x</div>` and page.tw = `<main>@component(\"~card\") \\n{{ 1 }}</main>`; String(\"page\") == `<main><div>x</div>1</main>` (the ` \\n` is missing)"),
-    ("C08", "R-RECDEPTH", "parser.(*Parser).parseExpression|recursion through parseExpression is bounded by a depth guard",
+    ("C12", "R-KINDS", "evaluator.evalString|a string literal evaluates to the text as written",
+     "a map key that contains &, < or > cannot be reached by its name: `{{ m[\"a&b\"] }}` with data {\"m\": {\"a&b\": 1}} fails with \"property 'a&amp;b' not found\". String literals are HTML-escaped when they are evaluated (evalString), not when they are printed, so the index, the built-ins (`\"<b>\".len()` is 9) and custom functions see the escaped text. C10 is stated in terms of this design (unescaping the output gives back the literal; raw() is the opt-out); moving the escaping to the printer changes what every string value means and is not a small repair: recorded",
+     "EvaluateString(`{{ m[\"a&b\"] }}`, map[string]any{\"m\": map[string]any{\"a&b\": 1}}) returns the error \"property 'a&amp;b' not found in type 'OBJECT'\""),
+    ("C08", "R-RECDEPTH", "parser.parseExpression|recursion through parseExpression is bounded by a depth guard",
      "expressions are parsed by recursive descent without a nesting limit: `{{ ` + 3,000,000 x `(` + `1` + 3,000,000 x `)` + ` }}` (6 MB) ends the process with `fatal error: stack overflow` (goroutine stack exceeds 1000000000-byte limit), which no recover can catch. A nesting limit is a design decision (which limit, which error) and needs a counterpart for the left spine of `1+1+1+...` that the evaluator recurses over: recorded, not repaired",
      "EvaluateString(\"{{ \" + strings.Repeat(\"(\", 3000000) + \"1\" + strings.Repeat(\")\", 3000000) + \" }}\", nil)"),
-    ("C08", "R-RECDEPTH", "parser.(*Parser).parseStatement|recursion through parseStatement is bounded by a depth guard",
+    ("C08", "R-RECDEPTH", "parser.parseStatement|recursion through parseStatement is bounded by a depth guard",
      "blocks are parsed by recursive descent without a nesting limit: 1,500,000 x `@if(true)` followed by 1,500,000 x `@end` (20 MB) ends the process with `fatal error: stack overflow`. Same design decision as for expressions: recorded, not repaired",
      "EvaluateString(strings.Repeat(\"@if(true)\", 1500000) + strings.Repeat(\"@end\", 1500000), nil)"),
 ]
@@ -80,6 +83,14 @@ FIXED = [
     ("C07", "4af6242", "`@component(\"~box\")@slot(\"x\")@end@end|tail` rendered without `|tail`: the @end of an empty slot body was taken for the body's last token and the component's @end for the slot's"),
     ("C06", "4af6242", "`@insert(\"a\")@end` (an empty insert body) was a parse error: expected next token to be '@end'"),
     ("C08", "6d2917f", "6,000,000 consecutive comments (54 MB) ended the process with a stack overflow: NextToken called itself after every comment"),
+    ("C18", "122cdfd", "NewTemplate with TemplateDir `no-such-dir/v%sw` reported `lstat no-such-dir/v%!s(MISSING)w: no such file or directory`: fail.FromError used the text of the wrapped error as a format string"),
+    ("C13", "122cdfd", "the path in a load error was mangled when it contained a percent sign"),
+    ("C11", "2b0af35", "`{{ \"abc\".truncate(10, 5) }}`, `{{ \"abc\".decimal(1) }}` and `{{ \"abc\".decimal(\"a\", \"b\", \"c\") }}` rendered `abc`: the early return for receivers that need no work came before the check of the argument kinds"),
+    ("C08", "b7ae855", "`@component(\"c\")@slot x@end` (the component's own @end missing) was accepted; `@component(\"c\")@slot x@end@if(a)b@end` lost its @if: parseSlots returned standing on whatever followed the last slot and the caller stepped over it"),
+    ("C05", "b7ae855", "`@component(\"c\")@slot(\"a\")x@end tail@end` dropped ` tail`: every text token after a slot was skipped, not only whitespace"),
+    ("C07", "b7ae855", "a component use with slots did not require its own @end"),
+    ("C08", "5bff172", "`{{ x )` was accepted although its `{{` is never closed: `)` counts as an end of embedded code and was skipped without an error where a statement is expected"),
+    ("C12", "0a000e4", "field `Élan` was not reachable as `s[\"élan\"]` / `s.élan`: the first-letter fallback upper-cased the first byte (`idx[:1]`), not the first letter"),
     ("C17", "d3e3b1f", "`a@dump(nope)b` rendered successfully with the error object (message and, for files, the path) inside the page: evalDumpStmt never tested the argument with isError"),
 ]
 
